@@ -5,6 +5,7 @@ import (
 	"fmt"
 	"sort"
 	"strings"
+	"time"
 
 	clover "github.com/ostafen/clover/v2"
 )
@@ -210,6 +211,32 @@ func streamC10(c *Ctx) {
 		}
 	}
 	c.Sample(J{"triple": []interface{}{encValue(pool[1]), encValue(pool[40]), encValue(pool[80])}})
+	// times outside the range of UnixNano (the protocol carries int64 nanoseconds, so these never reach the model):
+	// Compare is chronological for every pair, the zero time.Time included
+	{
+		ts := []time.Time{{}, time.Date(1, 1, 1, 0, 0, 0, 1, time.UTC), time.Date(1500, 6, 1, 0, 0, 0, 0, time.FixedZone("", 3600)), time.Date(1677, 9, 21, 0, 0, 0, 0, time.UTC),
+			time.Date(1677, 9, 22, 0, 0, 0, 0, time.UTC), time.Date(1960, 1, 1, 0, 0, 0, 0, time.UTC), time.Unix(0, 0), time.Date(2000, 1, 1, 0, 0, 0, 0, time.FixedZone("", -3630)),
+			time.Date(2262, 4, 11, 0, 0, 0, 0, time.UTC), time.Date(2262, 4, 12, 0, 0, 0, 0, time.UTC), time.Date(2500, 1, 1, 0, 0, 0, 0, time.UTC), time.Date(9999, 12, 31, 23, 59, 59, 999999999, time.UTC)}
+		for i, a := range ts {
+			for j, b := range ts {
+				c.Evals++
+				want := 0
+				if a.Before(b) {
+					want = -1
+				} else if a.After(b) {
+					want = 1
+				}
+				if got := sign(clover.VerifCompare(a, b)); got != want {
+					c.Violation(&Replay{Stream: "cmp", Case: []interface{}{J{"k": "cmp-times", "a": a.Format(time.RFC3339Nano), "b": b.Format(time.RFC3339Nano)}}, Expected: []string{fmt.Sprint(want)}, Actual: []string{fmt.Sprint(got)},
+						Note: "Compare does not order two times chronologically (instants outside the range of UnixNano)"})
+					return
+				}
+				if i != j {
+					c.NonTrivial(fmt.Sprint("time-pair", i, j))
+				}
+			}
+		}
+	}
 	c10ThroughIndex(c, g)
 	if c.Violations == 0 {
 		// binary values order and index as the slice of their bytes
